@@ -28,8 +28,8 @@ func init() {
 			"signature-algorithm / extension edits, non-canonical encodings) or format-aware mutations (CRLSet, OneCRL JSON, SST, TLS vectors, PEM headers), plus random strings; every input is run " +
 			"strict then permissive through every decoder of its family under a panic / hang / allocation guard, with the parsed key used for the self checks; " +
 			"non-trivial = some decoder accepted the input or the independent reader found a well-formed outer TLV / header; distinct by hash of (family, bytes)",
-		MinNontrivial:         20000,
-		MinNontrivialThorough: 400000,
+		MinNontrivial:         40000,
+		MinNontrivialThorough: 800000,
 		Shards:                16,
 		GoMaxProcs:            1,
 		Assumptions: []string{
@@ -493,7 +493,7 @@ func runC01(c *core.Ctx) {
 		}
 	}
 	// pass 2: mutated inputs
-	n := c.PerShard(c.Pick(c01QuickN, 6000000))
+	n := c.PerShard(c.Pick(c01QuickN, 4000000))
 	for i := 0; ok && i < n; i++ {
 		in, data := c01NextInput(ig)
 		id := fmt.Sprintf("s%d-%d", c.Shard, i)
